@@ -171,6 +171,7 @@ type TypeRef struct {
 	Via      *TypeDecl // alias declaration used instead of the name (C13)
 	Paren    bool      // (T) where allowed
 	ParenAll bool      // (*T): parentheses around the whole pointer type (receivers)
+	Wrap     string    // composite type built from the mention: "[]", "[2]", "map[string]", "chan ", "..." (variadic parameter), "[]" + pointer = []*T
 }
 
 type Var struct {
@@ -202,6 +203,7 @@ type FuncDecl struct {
 	RetExpr     string // expression returned when Results non-empty (rendered verbatim after refs)
 	RetSite     *Site  // optional site that is the return statement
 	RetVar      *Var   // if set: return <RetVar.Name>
+	Generic     bool   // func Name[K any](k0 K, params...): callers may instantiate explicitly
 	done        bool   // body complete (usable as a call target)
 	called      bool   // referenced from a site: must stay in a regular file
 }
@@ -264,20 +266,23 @@ func (w *Wrap) stmtNode() *Node { return &w.Node }
 // Site is one candidate statement on one line.
 type Site struct {
 	Node
-	ID       int
-	Kind     string
-	Type     *TypeDecl
-	Ref      *TypeRef // mention of Type at this site, if any
-	Field    *Field
-	Field2   *Field // second field (imm.tuple2)
-	Opnd     *Var
-	Fn       *FuncDecl
-	Aux      string // kind-specific
-	Local    string // name of a local variable introduced / used
-	LocalVar *Var   // if set, the introduced local (its Name overrides Local)
-	Multi    bool   // rendered over several lines (diagnostic expected on the tagged line)
-	Form     string // how an expression site is embedded: "" (_ = E) | return | define | pkgvar
-	Grouped  bool   // inside a var ( ... ) group (set by the renderer)
+	ID          int
+	Kind        string
+	Type        *TypeDecl
+	Ref         *TypeRef // mention of Type at this site, if any
+	Field       *Field
+	Field2      *Field // second field (imm.tuple2)
+	Opnd        *Var
+	Fn          *FuncDecl
+	Inst        bool   // the callee carries explicit type arguments: F[int](...)
+	ParenCallee bool   // the callee is parenthesised: (q.F)(...), (x.M)(...)
+	ParenTarget bool   // the written target is parenthesised: (x.f) = v, (x.f)++, (*r) = v
+	Aux         string // kind-specific
+	Local       string // name of a local variable introduced / used
+	LocalVar    *Var   // if set, the introduced local (its Name overrides Local)
+	Multi       bool   // rendered over several lines (diagnostic expected on the tagged line)
+	Form        string // how an expression site is embedded: "" (_ = E) | return | define | pkgvar
+	Grouped     bool   // inside a var ( ... ) group (set by the renderer)
 }
 
 func (s *Site) stmtNode() *Node { return &s.Node }
